@@ -129,7 +129,7 @@ def run(case, ctx):
         cnt = inject.counts(dry.calls)
         pick = case.get("errno_rot", 0)
         for s in inject.SYSCALLS:
-            for k in range(1, cnt.get(s, 0) + 1):
+            for k in inject.select_k(cnt.get(s, 0)):
                 for ei, en in enumerate(ERRNOS):
                     if ctx.tier == "quick" and (k + ei + pick) % 3 != 0:
                         continue        # quick: one errno per point, rotating
